@@ -89,6 +89,68 @@ fn main() {
     let args = parse_args();
     let mut run = Runner::new("C08", &args.tier, "model_checking");
     let thorough = run.thorough();
+    // ---- real hashers first (independent of the hash-class model below): the crate's own seeded SipHash family ----
+    // Per cell: for every seed of a fixed family a sketch built by with_point_query_properties_and_hasher receives
+    // ceil(1/eps) - 1 equal heavy hitters (a single collision in every row already breaks eps*N) and 50 unseen elements are
+    // queried; the fraction of (seed, element) pairs with overestimate > eps*N must not exceed delta. Deterministic, exhaustive
+    // over the stated finite family - not over the hash space (that is the enumeration below).
+    {
+        use pdatastructs::hash_utils::BuildHasherSeeded;
+        let seeds = if thorough { 1500usize } else { 300 };
+        let cells = [(0.1f64, 0.05f64), (0.05, 0.05), (0.2, 0.05), (0.043, 0.05), (0.16, 0.05), (0.01, 0.02), (0.3, 0.14), (0.021, 0.05)];
+        let rows = par_map(&cells.to_vec(), n_threads(), |&(eps, delta)| {
+            let heavy = (1.0 / eps).ceil() as u64 - 1;
+            let (mut bad, mut total, mut under) = (0u64, 0u64, 0u64);
+            let mut shape = (0usize, 0usize);
+            let r = mccore::panics::catch(|| {
+                for seed in 0..seeds {
+                    let mut s: CountMinSketch<u64, u32, BuildHasherSeeded> = CountMinSketch::with_point_query_properties_and_hasher(eps, delta, BuildHasherSeeded::new(seed));
+                    shape = (s.w(), s.d());
+                    for h in 0..heavy {
+                        s.add_n(&(1_000_000 + h * 7919), &100);
+                    }
+                    let limit = eps * (heavy * 100) as f64;
+                    for q in 0..50u64 {
+                        total += 1;
+                        let est = s.query_point(&(q * 104729 + 17 + seed as u64 * 1_000_003));
+                        if est as f64 > limit {
+                            bad += 1;
+                        }
+                    }
+                    for h in 0..heavy.min(3) {
+                        if s.query_point(&(1_000_000 + h * 7919)) < 100 {
+                            under += 1;
+                        }
+                    }
+                }
+            });
+            (eps, delta, shape, bad, total, under, r.err())
+        });
+        let mut table = vec![];
+        for (eps, delta, (w, d), bad, total, under, err) in rows {
+            let frac = if total > 0 { bad as f64 / total as f64 } else { 0.0 };
+            let name = format!("cms real-hasher family eps={} delta={}", eps, delta);
+            let replay = json!({"structure": "CountMinSketch", "constructor": "with_point_query_properties_and_hasher", "epsilon": eps, "delta": delta, "w": w, "d": d, "hashers": format!("BuildHasherSeeded::new(0..{})", seeds),
+                "stream": "ceil(1/eps)-1 heavy hitters 1000000 + 7919 h, weight 100 each", "queries": "50 unseen elements per seed: 104729 q + 17 + 1000003 seed", "bad_pairs": bad, "pairs": total, "fraction": frac});
+            if let Some(p) = err {
+                run.violation(Viol { property: "C08".into(), signature: format!("{} panics", name), message: format!("panicked: {}", p), replay: replay.clone() });
+            }
+            if under > 0 {
+                run.violation(Viol { property: "C02".into(), signature: format!("{} underestimate", name), message: format!("{} heavy hitters are reported below their true weight", under), replay: replay.clone() });
+            }
+            if frac > delta {
+                run.violation(Viol { property: "C08".into(), signature: format!("{} fraction above delta", name), message: format!("w={} d={}: {} of {} (seed, element) pairs = {:.4} have an overestimate above eps*N; delta = {}", w, d, bad, total, frac, delta), replay });
+            }
+            table.push(json!({"eps": eps, "delta": delta, "w": w, "d": d, "pairs": total, "fraction_above_eps_N": (frac * 1e5).round() / 1e5}));
+        }
+        run.ev.set("real_hasher_family", json!(table));
+        if run.n_violations() > 0 {
+            // reported first: the enumeration below presupposes the hashing pattern of the unchanged tree
+            run.ev.set("stopped_after_real_hasher_family", json!(true));
+            run.ev.set("exhaustive", json!(false));
+            run.finish();
+        }
+    }
     let epss: Vec<f64> = if thorough { vec![0.5, 0.4, 0.3, 0.25, 0.2] } else { vec![0.5, 0.4] };
     let deltas = [0.9, 0.5, 0.37, 0.3, 0.14, 0.1, 0.05, 0.02, 0.01];
     let shapes: Vec<Vec<u32>> = vec![vec![100], vec![50, 50], vec![34, 33, 33], vec![60, 30, 10], vec![41, 41, 18]];
